@@ -382,9 +382,7 @@ def method_call(name, args):
         res = int_binop(op, kind, acc, b)
         if res is None:
             return None
-        acc = int(res[2:])
-        if op == "mod" and b == 0:
-            return res          # DIVZERO_mod returns the value computed so far
+        acc = int(res[2:])     # x mod 0 = x, and the fold goes on (the property: the n-ary method is the left fold of the binary one)
     return res
 
 
@@ -554,8 +552,6 @@ def gen_lines(rng, per_combo, n_random):
     for op in ops2:
         for ta in types:
             for tb in types:
-                if op in COMPARATORS + ["cmp"] and {ta, tb} == {"s", "u"} and op not in ("=", "not="):
-                    continue            # primitive order of s64 against u64 depends on link order: not generated
                 ca, cb = P.pool(ta, True), P.pool(tb, True)
                 pa, pb = P.pool(ta), P.pool(tb)
                 seen = set()
@@ -608,8 +604,6 @@ def gen_lines(rng, per_combo, n_random):
         for _ in range(max(40, per_combo // 3)):
             n = rng.range(3, 4)
             ts = [rng.choice("nsut" if rng.chance(1, 4) else "nsu") for _ in range(n)]
-            if op in COMPARATORS and op not in ("=", "not=") and "s" in ts and "u" in ts:
-                ts = ["s" if t == "u" else t for t in ts]
             toks = []
             for i, t in enumerate(ts):
                 if i > 0 and (op in SHIFTS or op in ("/", "div", "mod", "%")) and rng.chance(2, 3):
